@@ -2,10 +2,12 @@
 
  1 prove       UtapModel.Props.C20: readGraph (writeXml d) = graphOf d for every document without a computed exception
                shape, writeXml d = none (crash) iff a branchpoint endpoint / missing init, ids unique, a witness per shape
- 2 run         C04's generator -> XML text -> real parse_XML_buffer -> real write_XML_file (in a child process) ->
-               the written file read with libxml2's *tree* API (independent of the library's own reader)
+ 2 run         C04's generator (+ labels with string literals outside ASCII: string_labels; models whose synchronisations are all
+               CSP style, a channel with neither `!` nor `?`: csp_syncs) -> XML text -> real parse_XML_buffer -> real write_XML_file
+               (in a child process) -> the written file read with libxml2's *tree* API (independent of the library's own reader)
  3 oracle      written graph ("W" lines) == graph of the document that was written ("G" lines: the specification graphOf,
-               printed by drv_c20 from the harness's dump of the Document).  A deviation is accepted only if it is exactly
+               printed by drv_c20 from the harness's dump of the Document; the text of a synchronisation is composed from the
+               channel expression and the direction the edge holds).  A deviation is accepted only if it is exactly
                the deviation the model of the writer predicts for the exception shapes present in that document
                (then: one finding per shape, listed in known_findings.d/C20.json); anything else is a VIOLATION.
  4 correspond  the model's predicted written graph == the real written graph on every document (tie C).
@@ -64,8 +66,12 @@ def toks(line):
 def unq(s):
     if s.startswith('"') and s.endswith('"'):
         body = s[1:-1]
-        return re.sub(r"\\x([0-9a-f]{2})", lambda mm: chr(int(mm.group(1), 16)),
-                      body.replace('\\"', '"').replace("\\n", "\n").replace("\\t", "\t").replace("\\\\", "\\"))
+        t = re.sub(r"\\x([0-9a-f]{2})", lambda mm: chr(int(mm.group(1), 16)),
+                   body.replace('\\"', '"').replace("\\n", "\n").replace("\\t", "\t").replace("\\\\", "\\"))
+        try:
+            return t.encode("latin-1").decode("utf-8")      # the bytes are UTF-8 text (kept byte by byte if they are not: a cut character)
+        except (UnicodeEncodeError, UnicodeDecodeError):
+            return t
     return s
 
 
@@ -78,10 +84,11 @@ class TextKeys:
             self.k[text] = "k%d" % len(self.k)
         return self.k[text]
 
-    def ltxt(self, tok):
+    def ltxt(self, tok, text=None):
+        """tok: a (quoted) token of the harness, or `text`: the text itself"""
         if tok == "-":
             return "-"
-        t = unq(tok)
+        t = unq(tok) if text is None else text
         if t == "1":
             return "1"
         if t.startswith("1 && "):
@@ -123,7 +130,12 @@ def lean_doc_lines(cid, dlines, tk):
                 kind, name = x.split(":", 1)
                 return ("L%d" % locnr[name]) if kind == "L" else ("B%d" % bpnr[name])
             kv = dict(x.split("=", 1) for x in w[5:])
-            out.append("edge %s %s %s %s %s %s %s" % (end(w[2]), end(w[4]), kv["control"], tk.ltxt(kv["guard"]), tk.ltxt(kv["sync"]),
+            sync = tk.ltxt(kv["sync"])
+            if kv.get("syncdir", "-") != "-":
+                # the text the synchronisation label has to carry: the channel expression followed by the direction the edge holds
+                # (`!`, `?`, nothing for a CSP-style synchronisation) -- composed here, not taken from the printed SYNC node
+                sync = tk.ltxt(None, unq(kv["syncchan"]) + {"?": "?", "!": "!", "csp": ""}[kv["syncdir"]])
+            out.append("edge %s %s %s %s %s %s %s" % (end(w[2]), end(w[4]), kv["control"], tk.ltxt(kv["guard"]), sync,
                                                      tk.ltxt(kv["assign"]), tk.ltxt(kv["prob"])))
             sel = kv["select"][1:-1]
             if sel:
@@ -251,6 +263,7 @@ def run_models(ctx, exe, drv, cases):
         r["fixed_spec"] = ["W" + l[1:] for l in lb if l.startswith("H ")]
         r["cfg"] = ([l for l in lb if l.startswith("CFG")] or [""])[0]
         r["real"] = norm_w([l for l in r["raw"] if l.startswith("W ")], tks[cid])
+        r["keytext"] = {k: t for t, k in tks[cid].k.items()}      # for messages: the text behind a key
         if cid.startswith("L"):
             r["real"] = delocalise(r["real"])
         r["lean_ok"] = bool(lb)
@@ -324,8 +337,10 @@ def judge(r):
                     if sh not in shapes:
                         viol.append(("model:shape-not-computed/" + sh, "deviation %s without its shape in the computed set %r" % (k, shapes)))
             else:
+                kt = r.get("keytext", {})
                 viol.append(("written:%s/%s" % (fr.get("_kind", "line"), k),
-                             "written file has %s=%s, document has %s=%s (writer model: %s) in %r" % (k, vr, k, vs, vp, lr)))
+                             "written file has %s=%s, document has %s=%s (writer model: %s) in %r" % (
+                                 k, kt.get(vr, vr), k, kt.get(vs, vs), kt.get(vp, vp), lr)))
     if not known and not viol:
         mism = (mism + "; " if mism else "") + "lines differ but no field does"
     return known, viol, mism
@@ -392,6 +407,10 @@ def run(ctx):
             special_names(M, r)
         if i % 4 == 2:
             inject_shape(M, r)            # exactly one kind of exception shape
+        if i % 8 == 5:
+            string_labels(M, r)
+        if i % 5 == 0:
+            csp_syncs(M)
         cases["c%d" % i] = m.XmlText(None).render(M)
         models["c%d" % i] = M
     # the same under a global locale that groups digits, including a template with more than a thousand locations (ids above 999)
@@ -531,6 +550,42 @@ def special_names(M, r):
                 e["labels"].append(["guard", ["int", 1]])           # trivially true guard: nothing to write
             if r.random() < 0.1 and not any(k == "guard" for k, _ in e["labels"]):
                 e["labels"].append(["guard", ["AND", ["LT", ["id", "m"], ["int", 7]], ["GT", ["id", "m"], ["int", -3]]]])
+
+
+# words with characters of two, three and four bytes in UTF-8, at the start, inside and at the end of the literal
+WORDS = ["na\u00efve", "\u00c6r\u00f8", "\u00ff", "\u65e5\u672c\u8a9e", "a\U0001f600b", "\u03a9mega\u2192", "plain ascii", "fa\u00e7ade 2", "\u00e9"]
+
+
+def string_labels(M, r):
+    """labels whose expression contains a string literal with characters outside ASCII (the argument of a function called in a guard,
+    an update or an invariant): the text of a label is a sequence of characters, its length in bytes is another number"""
+    M["gdecls"].append({"cat": "fun", "name": "code", "text": "int code(const string& s) { return 1; }", "dump": "", "trace": []})
+
+    def call():
+        return ["FUN_CALL", ["id", "code"], ["str", r.choice(WORDS)]]
+    for t in M["templates"]:
+        for e in t["edges"]:
+            if e["src"] in t["bps"]:
+                continue
+            kinds = [k for k, _ in e["labels"]]
+            if "guard" not in kinds and r.random() < 0.5:
+                e["labels"].append(["guard", ["EQ", call(), ["id", "m"]] if r.random() < 0.5 else ["AND", ["GE", ["id", "m"], ["int", 2]], ["EQ", ["id", "m"], call()]]])
+            if "assignment" not in kinds and r.random() < 0.5:
+                u = ["ASSIGN", ["id", "m"], call()]
+                e["labels"].append(["assignment", u if r.random() < 0.5 else ["COMMA", u, ["ASSIGN", ["id", "x"], ["int", 0]]]])
+        for l in t["locs"]:
+            if not any(k == "invariant" for k, _ in l["labels"]) and r.random() < 0.3:
+                l["labels"].insert(0, ["invariant", ["AND", ["LE", ["id", "x"], ["int", 9000 + r.randint(0, 99)]], ["EQ", call(), ["int", 1]]]])
+
+
+def csp_syncs(M):
+    """every synchronisation of the model in the CSP style (a channel expression with neither `!` nor `?`; a model may not mix the two
+    styles): the synchronisation label then is the channel expression alone"""
+    for t in M["templates"]:
+        for e in t["edges"]:
+            for lab in e["labels"]:
+                if lab[0] == "synchronisation":
+                    lab[1] = [lab[1][0], ""]
 
 
 def replay(ctx, path):
